@@ -20,6 +20,8 @@ RULE = ('one table 1..5 x 1..5 (values counts/small/signed/dyadic/big, every met
         'injective, list-valued, None for a residue class, labels equal as dict keys (1 / 1.0), dict id->label '
         '(incomplete, unknown ids), dict label->ids as list or tuple (overlapping groups, None key), rejected dicts; '
         'flags ignore_none x remove_empty; collapse one-to-one: the text-valued labellings, dict forms and metadata '
+        'labellings, tables that already carry collapsed_ids metadata (written by hand, or by a first collapse: collapse '
+        'of a collapsed table, first level with and without metadata, same and other axis), '
         'labellings that leave some ids without a label (None is a label like any other there), '
         'norm on/off, min_group_size 0..3, include_collapsed_metadata on/off, bad one_to_many_mode; one-to-many: '
         'generators yielding 0..3 (pathway, group) pairs per vector (duplicates, shared groups, short pathways '
@@ -223,9 +225,29 @@ def gen_partition(rng):
             'ignore_none': rng.random() < 0.4, 'remove_empty': rng.random() < 0.4}
 
 
+def _fn_labelling(rng):
+    k = rng.choice(['hash', 'hash', 'const', 'inj', 'none_some'])
+    if k == 'const':
+        return {'kind': 'const', 'label': rng.choice(['all', 'x y'])}
+    return {'kind': k, 'mod': rng.randint(1, 3)} if k != 'inj' else {'kind': 'inj'}
+
+
 def gen_collapse(rng):
     axis = rng.choice(AXES)
     s = _spec(rng)
+    r = rng.random()
+    if r < 0.12:
+        # history: collapse of a collapsed table (second level must list the FIRST result's ids as members)
+        pre = {'f': _fn_labelling(rng), 'include_md': rng.random() < 0.7, 'axis': axis if rng.random() < 0.8 else rng.choice(AXES)}
+        if pre['f']['kind'] == 'none_some':
+            pre['f'] = {'kind': 'hash', 'mod': 3}
+        return {'op': 'collapse', 'spec': s, 'axis': axis, 'pre': pre, 'f': _fn_labelling(rng),
+                'norm': rng.random() < 0.3, 'min_group_size': rng.choice([1, 1, 1, 2]),
+                'include_md': rng.random() < 0.85, 'mode': 'add'}
+    if r < 0.22:
+        # a table that already carries collapsed_ids metadata on the axis (a collapsed table read from a file)
+        mdk = 'omd' if axis == 'observation' else 'smd'
+        s[mdk] = [{'collapsed_ids': ['m%d_%d' % (i, j) for j in range(rng.randint(1, 3))]} for i in range(len(_axis_ids(s, axis)))]
     return {'op': 'collapse', 'spec': s, 'axis': axis, 'f': gen_labelling(rng, s, axis, True),
             'norm': rng.random() < 0.5, 'min_group_size': rng.choice([1, 1, 1, 1, 1, 2, 2, 3, 0]),
             'include_md': rng.random() < 0.7, 'mode': 'add' if rng.random() < 0.95 else 'bogus'}
@@ -302,9 +324,26 @@ def _snap_to_grid(snap, k):
     return snap
 
 
+def build_case(case):
+    """the table under test: built from its spec and layout recipe, then (history) possibly itself the result of a
+    one-to-one collapse, so that it already carries collapsed_ids metadata / collapsed labels as ids"""
+    t = T.build(case['spec'])
+    pre = case.get('pre')
+    if pre:
+        t = t.collapse(make_f(pre['f']), norm=False, include_collapsed_metadata=pre['include_md'], axis=pre['axis'])
+    return t
+
+
+def source(case):
+    """content of the table under test in snapshot form (the reference the oracle compares with)"""
+    if case.get('pre'):
+        return T.snapshot(build_case(case))
+    return T.spec_content(case['spec'])
+
+
 def run_impl(case):
     try:
-        t = T.build(case['spec'])
+        t = build_case(case)
     except Exception as e:
         return ['crash-build', type(e).__name__, str(e)[:200]]
     _INFO[id(case)] = T.layout_info(t)
@@ -347,6 +386,8 @@ class LabelCoder:
 
 def _universe(case):
     u = T.spec_universe(case['spec'])
+    if case.get('pre'):
+        u += T.spec_universe(source(case))
     if case['op'] == 'collapse':
         d = case['f']
         if d['kind'] in ('idmap', 'badmap'):
@@ -354,7 +395,7 @@ def _universe(case):
         elif d['kind'] == 'grpmap':
             u += [g for g, _ in d['map'] if g is not None] + [i for _, m in d['map'] for i in m]
         else:
-            snap = T.spec_content(case['spec'])
+            snap = source(case)
             ids, md = _axis_items(snap, case['axis'])
             try:
                 u += [x for x in labels_for(d, ids, md) if isinstance(x, str)]
@@ -380,7 +421,7 @@ def _universe(case):
 def _prep(case):
     """coder, label coder, content of the built table, encoded labelling"""
     cd = T.Coder(_universe(case))
-    snap = T.snapshot(T.build(case['spec']))
+    snap = T.snapshot(build_case(case))
     ids, md = _axis_items(snap, case['axis'])
     lc = LabelCoder()
     enc = None
@@ -464,7 +505,7 @@ def _keys(axis):
 
 def oracle_partition(case, obs):
     fails = []
-    src = T.spec_content(case['spec'])
+    src = source(case)
     axis = case['axis']
     ax, ot, axmd, otmd = _keys(axis)
     d = case['f']
@@ -527,7 +568,7 @@ def oracle_partition(case, obs):
 
 def oracle_collapse(case, obs):
     fails = []
-    src = T.spec_content(case['spec'])
+    src = source(case)
     axis = case['axis']
     ax, ot, axmd, otmd = _keys(axis)
     if case['mode'] not in ('add', 'divide'):
@@ -576,7 +617,7 @@ def oracle_collapse(case, obs):
 
 def oracle_o2m(case, obs):
     fails = []
-    src = T.spec_content(case['spec'])
+    src = source(case)
     axis = case['axis']
     ax, ot, axmd, otmd = _keys(axis)
     if case['mode'] not in ('add', 'divide') or case['norm']:
@@ -635,7 +676,7 @@ def oracle(case, obs):
 
 
 def nontrivial(case):
-    src = T.spec_content(case['spec'])
+    src = source(case)
     ax, ot, axmd, otmd = _keys(case['axis'])
     try:
         if case['op'] == 'o2m':
@@ -650,6 +691,8 @@ def nontrivial(case):
 
 def classify(case):
     tags = ['op:' + case['op'], 'axis:' + case['axis'], 'layout:' + _INFO.get(id(case), '?')]
+    if case.get('pre'):
+        tags.append('history:collapsed-before(md=%d,%s-axis)' % (case['pre']['include_md'], 'same' if case['pre']['axis'] == case['axis'] else 'other'))
     if case['op'] == 'o2m':
         tags += ['gen:' + case['gen']['kind'], 'mode:' + case['mode'], 'strict:%d' % case['strict']]
     else:
